@@ -21,6 +21,10 @@ def scripts(rng, tier):
         if k % 7 == 3:
             # tag length configured but authentication service not requested
             p.rtp = p.rtp[:3] + (20, 10, rng.choice([1, 0]))
+        if k % 5 == 4:
+            # the library accepts policies that ask for cryptex and RFC 6904 encryption together
+            p.cryptex = True
+            p.enc_xtn = p.enc_xtn or bytes(rng.sample(range(1, 15), 2))
         L = [p.line(1)]
         for sid in range(1, 9):
             L.append(f"create {sid:x} 1")
@@ -55,12 +59,26 @@ def scripts(rng, tier):
     return out
 
 
+def corpus_cryptex_6904():
+    r = random.Random(12012)
+    p = default_policy(r, 0xcafebabe, cryptex=True, enc_xtn=b"\x01")
+    pkt = rtp_packet(0xcafebabe, 1, payload=b"\x01\x02\x03\x04", ext=one_byte_ext([(1, b"\xaa\xbb\xcc")]))
+    L = [p.line(1)] + [f"create {sid:x} 1" for sid in range(1, 5)]
+    lines = []
+    for m in range(4):
+        L.append(pkt_op("protect", 1 + m, pkt, cap=len(pkt) + 10, mode=m)); lines.append(len(L))
+    L.append("# G " + " ".join(f"{x:x}" for x in lines))
+    L += [f"dealloc {sid:x}" for sid in range(1, 5)]
+    return "\n".join(L) + "\n"
+
+
 def monitor(script, c):
     hits = []
     sl = script.split("\n")
     out = {int(l.split()[0]): l.split() for l in c if l.strip()}
     pol = sl[0].split()
     rtp_tag, rtp_serv = int(pol[8], 16), int(pol[9], 16)
+    both = int(pol[22], 16) == 1 and pol[24] not in ("-", "")
     for i, l in enumerate(sl, 1):
         t = l.split()
         if len(t) > 2 and t[0] == "#" and t[1] == "G":
@@ -71,6 +89,12 @@ def monitor(script, c):
             for m, r in enumerate(rows):
                 if r[5] == "0":
                     hits.append({"what": "out-of-place call modified its input buffer", "signature": "input-modified:" + r[1], "detail": " ".join(r[:3])}); return hits
+                if both and r[1] in ("protect", "unprotect") and (r[2] != base[2] or r[3] != base[3] or (r[2] == "0" and r[4] != base[4])):
+                    # cryptex + RFC 6904 in one policy: the 6904 walk runs over the not yet copied destination
+                    if not any(h["signature"] == "cryptex-with-6904:" + r[1] for h in hits):
+                        hits.append({"what": "policy with cryptex and RFC 6904 encryption together: out-of-place result differs from in-place / depends on the destination's previous content",
+                                     "signature": "cryptex-with-6904:" + r[1], "detail": f"line {int(t[2+m],16)} vs {int(t[2],16)}"})
+                    continue
                 if r[2] != base[2] or r[3] != base[3]:
                     hits.append({"what": "status or output length differs between in-place and out-of-place processing",
                                  "signature": "alias-status-differs:" + r[1], "detail": f"mode 0: {base[2]} {base[3]}  mode {m}: {r[2]} {r[3]}"}); return hits
@@ -89,4 +113,6 @@ def monitor(script, c):
 
 def families(tier, seed):
     rng = random.Random(seed * 1000 + 12)
-    return [Family("four-modes", scripts(rng, tier), monitor=monitor)]
+    # corpus first: the cryptex + RFC 6904 policy of the known finding, independent of the seed
+    corpus = [("corpus-cryptex-6904", corpus_cryptex_6904())]
+    return [Family("four-modes", corpus + scripts(rng, tier), monitor=monitor)]
